@@ -20029,7 +20029,15 @@ impl<
 							},
 						);
 					}
+					// The (stale) `Channel` may still list HTLCs in its holding cell or awaiting their
+					// first commitment which the newer `ChannelMonitor` already has in a counterparty
+					// commitment transaction. Those are live: the monitor resolves them on-chain and
+					// tells us the outcome, so they must not be failed here.
+					let monitor_outbound_htlcs = monitor.get_all_current_outbound_htlcs();
 					for (source, hash, cp_id, chan_id) in shutdown_result.dropped_outbound_htlcs {
+						if monitor_outbound_htlcs.contains_key(&source) {
+							continue;
+						}
 						let reason = LocalHTLCFailureReason::ChannelClosed;
 						failed_htlcs.push((source, hash, cp_id, chan_id, reason, None));
 					}
